@@ -489,11 +489,17 @@ def run_legacy_encoding(case, rng, d, counters, cov, viol):
 def run_package(case, rng, d, counters, cov, viol):
     """load from a data package on disk and from a (descriptor, iterators) pair x selector forms."""
     names = rng.sample(['a', 'ab', 'abc', 'a.b', 'axb', 'b'], rng.randint(1, 4))
+    if boot.rng(case['seed'], 'C13', 'dotted_pair', case['idx']).random() < 0.3:
+        names = ['a.b', 'axb'] + rng.sample(['a', 'ab', 'b'], rng.randint(0, 2))
+        rng.shuffle(names)
     fields = [{'name': 'id', 'type': 'integer'}, {'name': 't', 'type': 'string'}]
     tables = {n: [{'id': i, 't': '%s-%d' % (n, i)} for i in range(rng.choice([0, 1, 4]))] for n in names}
     k = len(names)
     selector = rng.choice([None, names[0], 'a.*', 'a|ab', [names[-1]], list(names), 0, -1, k - 1, [], 'zzz',
                            [names[0], 'nope']])
+    if 'a.b' in names and 'axb' in names and boot.rng(case['seed'], 'C13', 'dotted_name', case['idx']).random() < 0.6:
+        # a LISTED name and a name picked by index are taken literally: 'a.b' in a list is not a pattern for 'axb'
+        selector = rng.choice([['a.b'], names.index('a.b'), ['a.b', 'b']])
     kind = rng.choice(['package', 'tuple', 'zip', 'tuple_streaming'])
     strat = rng.choice([None, None, 'strings+strings', 'full+strings', 'strings+nothing'])
     skw = {}
